@@ -76,6 +76,17 @@ Theorem C08_concat_spec_shape axis t0 rest v :
   (forall k, (k < List.length (sh t0))%nat -> k <> axis -> nthz (sh v) k = nthz (sh t0) k) /\
   (List.length (pl t0) = numel (sh t0) -> List.length (pl v) = numel (sh v)).
 Proof. exact (concat_spec_shape axis (t0 :: rest) v). Qed.
+(* ... and the joining step that value is folded from: at every valid index the element is the left
+   operand's where the axis coordinate lies within its extent, otherwise the right operand's at
+   that coordinate minus the left extent. C08_concat_element_partial: stated for the two-operand
+   step; its lift to the n-ary "first input whose cumulative extent exceeds i[axis]" form is not
+   stated here -- for n inputs the elements are tied to the code through C08_model_refines_spec *)
+Theorem C08_concat_element_partial axis (a b : tensor Z) i :
+  valid (tshape (concat2 axis a b)) i ->
+  get 0%Z (concat2 axis a b) i =
+  if (nth axis i 0 <? nthz (tshape a) axis)%nat then get 0%Z a i
+  else get 0%Z b (map (fun k => if Nat.eqb k axis then (nth k i 0 - nthz (tshape a) axis)%nat else nth k i 0%nat) (seq 0 (List.length i))).
+Proof. exact (concat2_element axis a b i). Qed.
 Print Assumptions C08_concat_spec_shape.
 
 (* the two excluded corners are real disagreements between gorgonia-through-slice.go and S, outside
